@@ -7,6 +7,9 @@ structural: to_pairs -> from_items, iter_tuple -> from_records, items() -> from_
 """
 import copy
 import io
+import os
+import shutil
+import tempfile
 import pickle
 
 import numpy as np
@@ -46,6 +49,7 @@ def unambiguous(s):
 
 
 EDGE = [False, False]  # [allow leading/trailing space, allow the quote char]: set per case (known findings kept rare)
+QUOTE = ['"']  # the quote character of the case being generated
 
 
 def text_cells(allow_tab=False, min_size=1):
@@ -54,7 +58,7 @@ def text_cells(allow_tab=False, min_size=1):
     def ok(s):
         if not EDGE[0] and s != s.strip():
             return False
-        if not EDGE[1] and '"' in s:
+        if not EDGE[1] and QUOTE[0] in s:
             return False
         return unambiguous(s) or (min_size == 0 and s == '')
     return st.text(alphabet=alpha, min_size=min_size, max_size=6).filter(ok)
@@ -99,6 +103,9 @@ def frame_cases(draw):
     # decisive choices first (late draws are pinned to their first option for a share of Hypothesis's examples)
     delim = draw(st.sampled_from([',', '\t', '|', ';']))
     route = draw(st.sampled_from(['delimited', 'delimited', 'named']))
+    quote = draw(st.sampled_from(['"', "'", '"']))
+    QUOTE[0] = quote
+    via = draw(st.sampled_from(['stringio', 'path', 'lines']))
     inc_i, inc_c, consolidate = draw(st.booleans()), draw(st.booleans()), draw(st.booleans())
     n = draw(st.sampled_from([3, 2, 1, 4, 5]))
     m = draw(st.sampled_from([3, 2, 1, 4]))
@@ -133,7 +140,7 @@ def frame_cases(draw):
             cols.append(np.array(draw(st.lists(st.booleans(), min_size=n, max_size=n)), dtype=bool))
     return {'il': il, 'cl': cl, 'idepth': idepth, 'cdepth': cdepth, 'cols': cols, 'delim': delim,
             'include_index': inc_i or idepth > 1 or (m == 1 and draw(st.integers(0, 7)) < 7), 'include_columns': inc_c or cdepth > 1, 'disable_filter': disable_filter,
-            'consolidate': consolidate, 'route': route}
+            'consolidate': consolidate, 'route': route, 'quote': quote, 'via': via}
 
 
 def _index(labels, depth):
@@ -159,19 +166,37 @@ def check_delimited(case):
     if case['disable_filter'] and any(c.dtype.kind == 'f' and (np.isnan(c).any() or np.isinf(c).any()) for c in cols):
         raise Discard('disabled filter with non-finite floats')
     buf = io.StringIO()
+    quote = case.get('quote', '"')
+    qkw = {'quote_char': quote} if quote != '"' else {}
     if case['route'] == 'named' and delim in (',', '\t'):
-        w = lib(lambda: (f.to_csv if delim == ',' else f.to_tsv)(buf, include_index=inc_i, include_columns=inc_c, **sfl))
+        w = lib(lambda: (f.to_csv if delim == ',' else f.to_tsv)(buf, include_index=inc_i, include_columns=inc_c, **sfl, **qkw))
     else:
-        w = lib(lambda: f.to_delimited(buf, delimiter=delim, include_index=inc_i, include_columns=inc_c, **sfl))
+        w = lib(lambda: f.to_delimited(buf, delimiter=delim, include_index=inc_i, include_columns=inc_c, **sfl, **qkw))
     if isinstance(w, Raised):
         raise Failure('raised:%s' % w.cls, 'export raised %r' % w.exc, w.where)
     text = buf.getvalue()
-    kw = dict(index_depth=case['idepth'] if inc_i else 0, columns_depth=case['cdepth'] if inc_c else 0, **sfl)
-    if case['route'] == 'named' and delim in (',', '\t'):
-        r = lib(lambda: (sf.Frame.from_csv if delim == ',' else sf.Frame.from_tsv)(io.StringIO(text), **kw))
+    kw = dict(index_depth=case['idepth'] if inc_i else 0, columns_depth=case['cdepth'] if inc_c else 0, **sfl, **qkw)
+    via = case.get('via', 'stringio')
+    tmpdir = None
+    if via == 'path':
+        tmpdir = tempfile.mkdtemp(prefix='vf_c16_', dir='/dev/shm' if os.path.isdir('/dev/shm') else None)
+        src = os.path.join(tmpdir, 't.txt')
+        with open(src, 'w', newline='') as fh:
+            fh.write(text)
+        mk = lambda: src  # noqa: E731
+    elif via == 'lines':
+        mk = lambda: iter(text.splitlines(keepends=True)) if '\n' not in text.replace('\r\n', '').replace('\n', '', text.count('\n')) else io.StringIO(text)  # noqa: E731
     else:
-        r = lib(lambda: sf.Frame.from_delimited(io.StringIO(text), delimiter=delim, **kw))
-    classes = ['delim:' + repr(delim), 'idepth:%d' % (case['idepth'] if inc_i else 0), 'cdepth:%d' % (case['cdepth'] if inc_c else 0),
+        mk = lambda: io.StringIO(text)  # noqa: E731
+    try:
+        if case['route'] == 'named' and delim in (',', '\t'):
+            r = lib(lambda: (sf.Frame.from_csv if delim == ',' else sf.Frame.from_tsv)(mk(), **kw))
+        else:
+            r = lib(lambda: sf.Frame.from_delimited(mk(), delimiter=delim, **kw))
+    finally:
+        if tmpdir:
+            shutil.rmtree(tmpdir, ignore_errors=True)
+    classes = ['quote:' + quote, 'via:' + via, 'delim:' + repr(delim), 'idepth:%d' % (case['idepth'] if inc_i else 0), 'cdepth:%d' % (case['cdepth'] if inc_c else 0),
                'filter-off' if case['disable_filter'] else 'filter-default']
     if isinstance(r, Raised):
         raise Failure('raised:%s' % r.cls, 'import of %r raised %r' % (text[:300], r.exc), r.where)
@@ -190,7 +215,7 @@ def check_delimited(case):
             if c.dtype.kind == 'f' and np.isnan(c).all():
                 continue
             raise Failure('dtype', 'column %d: dtype %s came back as %s; text=%r' % (j, c.dtype, g.dtype, text[:300]))
-    special = any(c.dtype.kind == 'U' and any((delim in v) or ('"' in v) or (' ' in v) for v in c.tolist()) for c in cols)
+    special = any(c.dtype.kind == 'U' and any((delim in v) or ('"' in v) or ("'" in v) or (' ' in v) for v in c.tolist()) for c in cols)
     return {'nt': special or (inc_i and case['idepth'] > 1) or (inc_c and case['cdepth'] > 1), 'cls': classes + (['special-cell'] if special else [])}
 
 
@@ -285,7 +310,8 @@ def tag(case, f):
     if f.kind.startswith('raised:ErrorInitIndex') and len({t.strip() for t in labs}) < len(set(labs)):
         return 'leading-trailing-space-stripped-on-import'
     # TSV output is never un-quoted on import: a cell holding the quote char (or needing quotes) comes back quoted
-    if delim == '\t' and any(('"' in t) for t in texts):
+    # (the active quote character; only label / value mismatches, the form the finding takes)
+    if delim == '\t' and f.kind in ('labels', 'value') and any((case.get('quote', '"') in t) for t in texts):
         return 'tsv-quoted-cells-not-unquoted'
     return None
 
